@@ -230,7 +230,21 @@ spif_url_dup(spif_url_t self)
     spif_url_t tmp;
 
     ASSERT_RVAL(!SPIF_URL_ISNULL(self), (spif_url_t) NULL);
-    tmp = spif_url_new_from_str(SPIF_STR(self));
+    /* Copy the text and the components as they are; re-parsing the text would
+       lose components changed through the setters (and cannot cope with no text). */
+    tmp = spif_url_new();
+    REQUIRE_RVAL(!SPIF_URL_ISNULL(tmp), (spif_url_t) NULL);
+    if (SPIF_STR(self)->s != (spif_charptr_t) NULL) {
+        spif_str_init_from_ptr(SPIF_STR(tmp), SPIF_STR(self)->s);
+        spif_obj_set_class(SPIF_OBJ(tmp), SPIF_CLASS_VAR(url));
+    }
+    tmp->proto = ((SPIF_STR_ISNULL(self->proto)) ? ((spif_str_t) NULL) : (spif_str_dup(self->proto)));
+    tmp->user = ((SPIF_STR_ISNULL(self->user)) ? ((spif_str_t) NULL) : (spif_str_dup(self->user)));
+    tmp->passwd = ((SPIF_STR_ISNULL(self->passwd)) ? ((spif_str_t) NULL) : (spif_str_dup(self->passwd)));
+    tmp->host = ((SPIF_STR_ISNULL(self->host)) ? ((spif_str_t) NULL) : (spif_str_dup(self->host)));
+    tmp->port = ((SPIF_STR_ISNULL(self->port)) ? ((spif_str_t) NULL) : (spif_str_dup(self->port)));
+    tmp->path = ((SPIF_STR_ISNULL(self->path)) ? ((spif_str_t) NULL) : (spif_str_dup(self->path)));
+    tmp->query = ((SPIF_STR_ISNULL(self->query)) ? ((spif_str_t) NULL) : (spif_str_dup(self->query)));
     return tmp;
 }
 
